@@ -83,11 +83,13 @@ static Verdict judge(bool victim_server, bool ecdhe, bool cauth, bool resumed, c
             k = kk + 1; if (k == e.size()) v.done_at = (int) i;
             continue;
         }
-        v.viol_at = (int) i; v.why = fmt("%s where %s is required", tok_name[x.t], tok_name[e[k].t]);
+        { size_t req = k; while (req < e.size() && e[req].opt) req++;
+          v.viol_at = (int) i; v.why = fmt("%s where %s is required", tok_name[x.t], req < e.size() ? tok_name[e[req].t] : "nothing"); }
         // name the root-cause class: a required message was skipped / a message was repeated / a foreign message appeared
         size_t later = k + 1; while (later < e.size() && e[later].t != x.t) later++;
         bool seen_before = false; for (size_t j = 0; j < i; j++) if (tk[j].t == x.t) seen_before = true;
-        if (later < e.size()) v.sig = e[k].t == T_CCS ? "completed-without-ccs" : fmt("completed-with-skipped-%s", tok_name[e[k].t]);
+        size_t req = k; while (req < e.size() && e[req].opt) req++;
+        if (later < e.size() && req < e.size()) v.sig = e[req].t == T_CCS ? "completed-without-ccs" : fmt("completed-with-skipped-%s", tok_name[e[req].t]);
         else if (seen_before) v.sig = fmt("completed-with-repeated-%s", tok_name[x.t]);
         else v.sig = fmt("completed-with-unexpected-%s", tok_name[x.t]);
         break;
